@@ -444,6 +444,8 @@ def _encode(rng, samples, s, stats, inject=None, hdr_ftype=None):
     while pos < n:
         if inject is not None and inject[0] == blk:
             bw.uvar(inject[1], FNSIZE)
+            for val, width in (inject[2] if len(inject) > 2 else ()):
+                bw.uvar(val, width)         # operand-like fields after the unknown command (see _error_cases)
         scripted = blk < len(script)
         if scripted:
             want = min(int(script[blk][0]), n - pos)
@@ -583,6 +585,8 @@ def _encode(rng, samples, s, stats, inject=None, hdr_ftype=None):
         blk += 1
     if inject is not None and inject[0] >= blk:
         bw.uvar(inject[1], FNSIZE)
+        for val, width in (inject[2] if len(inject) > 2 else ()):
+            bw.uvar(val, width)
     bw.uvar(FN_QUIT, FNSIZE)
     stats["max_run"] = max(stats["max_run"], bw.max_run)
     stats["nblocks"] = blk
@@ -1259,6 +1263,15 @@ def _error_cases(seed, tier):
         blk = [0, 1, 2, 99][i % 4] if i < 8 else int(rng.integers(0, 9))
         cases.append({"kind": "badcmd", "seed": seed, "idx": 100 + i, "salt": "err", "tier": tier,
                       "force": dict(small), "inject": [blk, code]})
+    # ... followed by operand-like fields that a decoder "tolerating" the command (skipping it, or reading a count and that many
+    # bytes, as newer shorten's VERBATIM does) would consume cleanly, so that the rest of the stream still decodes: such a decoder
+    # returns data where the property demands IOError
+    pads = [[[0, 5]], [[0, 2]], [[0, 8]], [[0, 3]], [[0, 5], [0, 8]], [[1, 5], [65, 8]], [[2, 5], [1, 8], [2, 8]], [[0, 2], [0, 2]]]
+    for i, pad in enumerate(pads):
+        for code in ([9, 10] if tier == "quick" else [9, 10, 11, 12, 15, 31]):
+            for blk in ([0, 99] if tier == "quick" else [0, 1, 2, 99]):
+                cases.append({"kind": "badcmd", "seed": seed, "idx": 300 + i, "salt": "err", "tier": tier,
+                              "force": dict(small), "inject": [blk, code, pad]})
     # version bytes: everything except 1 and 2
     vbytes = [0, 3, 4, 7, 8, 0x7F, 0x80, 0xFF] if tier == "quick" else [b for b in range(256) if b not in (1, 2)]
     if tier == "quick":
